@@ -46,7 +46,11 @@ var c11Formats = []string{"fasta", "fastq", "sam", "samh", "bed", "newick", "ncb
 
 var dictionary = []string{`"`, `""`, `''`, `'`, "@", ">", "+", "#", ":", "::", ",", "(", ")", ";", "\t", "\r", "\n", "\r\n", "nan", "0x1p-2",
 	"1e999", "-", "*", " ", "_", "\x00", "\xff", "\x80", "=", "0", "-1", "9223372036854775808", "XX:A:\xff", "XX:i:", "XX:f:inf", "XX:H:0", "XX:B:c,1",
-	"255,255,256", "0x1,0b1,0o7", "\xef\xbb\xbf", "%", "%s", "%!", "\r\n\r\n", "1_0", "\t\t", "\n\n", "'a''b'", ":1e5", "(,)", ";;", "\n>", "\n@", "\n+\n", "\f", "\v"}
+	"255,255,256", "0x1,0b1,0o7", "\xef\xbb\xbf", "%", "%s", "%!", "\r\n\r\n", "1_0", "\t\t", "\n\n", "'a''b'", ":1e5", "(,)", ";;", "\n>", "\n@", "\n+\n", "\f", "\v",
+	// shapes real tools write: an empty B array tag, a long bracketed annotation block (BEAST), a UCSC track line,
+	// a placeholder sign, an Illumina read name
+	"ML:B:C", "\tML:B:C", "[&" + strings.Repeat("rate=0.125,height_95%_HPD={0.1,0.2},", 6) + "posterior=1]", "[]", "track name=x description=\"y z\"\n", "browser position chr1:1-2\n",
+	"\t-\t", "\t+\t", "M01234:56:000000000-ABCDE:1:1101:15589:1332 1:N:0:1", "/1", "chrUn_gl000220", "1e-05", "1.0E+2", "-0", "+1", "1."}
 
 // ---- own renderers of valid text (independent of the library's writers) -------------------
 
@@ -237,10 +241,11 @@ func genC11(t *rapid.T, thorough bool) C11Case {
 var samCorrKinds = []string{"fewfields", "badint", "tagcolons", "tagtype", "tagvalue"}
 var samCorrTexts = map[string][]string{
 	"fewfields": {""},
-	"badint":    {"x", "1.5", "", "12a", "--1", "0x1F", "1e3", " 1", "9223372036854775808", "1 "},
+	"badint":    {"x", "1.5", "", "12a", "--1", "0x1F", "1e3", " 1", "9223372036854775808", "1 ", "-", "+", "+-1", "-+1", "*", ".", "1_000", "\u0661"},
 	"tagcolons": {"XX", "XX:i", "XXi1", "X", "", "XX:Z", "XX:H", "XX:B", "XX:A", "XX:f", "Z:XX", ":Z"},
 	"tagtype":   {"XX:Q:1", "XX::1", "XX:ii:1", "XX:I:1", "XX:z:a"},
-	"tagvalue":  {"XX:i:abc", "XX:i:1.5", "XX:i:", "XX:f:abc", "XX:f:", "XX:H:xyz", "XX:H:abc", "XX:A:ab", "XX:A:", "XX:i:9223372036854775808"},
+	// (type B is not an unknown type for this library: it is accepted and kept as a string)
+	"tagvalue": {"XX:i:abc", "XX:i:1.5", "XX:i:", "XX:f:abc", "XX:f:", "XX:H:xyz", "XX:H:abc", "XX:A:ab", "XX:A:", "XX:i:9223372036854775808"},
 }
 
 // genPlainSamRec: a record over the plain field alphabet with a non-empty Qname.
